@@ -22,7 +22,7 @@ edzed = seams.install()
 
 PROP = 'C03'
 LEVEL = 'exploration'
-RUNS = {'quick': 40000, 'thorough': 1500000}
+RUNS = {'quick': 120000, 'thorough': 1500000}
 CHUNK = 500
 RULE = ("one run = one generated FSM class (1-4 states, 1-3 events; specific / 'a|b' / list / "
         "any-state / forbidden rules; cond/enter/exit as methods and/or instance callbacks; entry "
